@@ -598,6 +598,160 @@ theorem growthOld_storm (max : α) (s : LOld α) (T eq : α) (h : max < |s.dTemp
   have hd : max < absS s.dTemp := by rw [absS_eq_abs]; exact h
   simp [growthOld, hd]
 
+/-! ## 5. the caller's arrays: arguments unchanged, no dependence on later changes -/
+
+section world
+variable {β : Type}
+
+theorem nth_updAt_ne (l : List β) (i j : Nat) (f : β → β) (h : i ≠ j) :
+    nth (updAt l i f) j = nth l j := by
+  induction l generalizing i j with
+  | nil => simp [updAt]
+  | cons x r ih =>
+    cases i with
+    | zero =>
+      cases j with
+      | zero => exact absurd rfl h
+      | succ j => simp [updAt, nth]
+    | succ i =>
+      cases j with
+      | zero => simp [updAt, nth]
+      | succ j => simp only [updAt, nth]; exact ih i j (by omega)
+
+theorem nth_updAt_eq (l : List β) (i : Nat) (f : β → β) (x : β) (h : nth l i = some x) :
+    nth (updAt l i f) i = some (f x) := by
+  induction l generalizing i with
+  | nil => simp [nth] at h
+  | cons y r ih =>
+    cases i with
+    | zero => simp only [nth, Option.some.injEq] at h; simp [updAt, nth, h]
+    | succ i => simp only [updAt, nth] at h ⊢; exact ih i h
+
+theorem nth_append_left (l : List β) (x y : β) (j : Nat) (h : nth l j = some y) :
+    nth (l ++ [x]) j = some y := by
+  induction l generalizing j with
+  | nil => simp [nth] at h
+  | cons z r ih =>
+    cases j with
+    | zero => simpa [nth] using h
+    | succ j => simp only [List.cons_append, nth] at h ⊢; exact ih j h
+
+theorem nth_append_new (l : List β) (x : β) : nth (l ++ [x]) l.length = some x := by
+  induction l with
+  | nil => rfl
+  | cons z r ih => simpa [nth] using ih
+
+theorem nth_map {γ : Type} (f : β → γ) (l : List β) (j : Nat) :
+    nth (l.map f) j = (nth l j).map f := by
+  induction l generalizing j with
+  | nil => rfl
+  | cons z r ih => cases j <;> simp [nth, ih]
+
+theorem updAt_map {γ : Type} (f : β → γ) (l : List β) (i : Nat) (x : β) :
+    (updAt l i (fun _ => x)).map f = updAt (l.map f) i (fun _ => f x) := by
+  induction l generalizing i with
+  | nil => rfl
+  | cons z r ih => cases i <;> simp [updAt, ih]
+
+end world
+
+/-- **arguments unchanged**: specifying a schedule — constructor or setter — leaves every array of
+the caller as it is (both semantics; this is what the code does and did). -/
+theorem spec_store_unchanged (w : VWorld α) (o a b : Nat) :
+    (w.step (.ctor a b)).store = w.store ∧ (w.step (.setArr o a b)).store = w.store := ⟨rfl, rfl⟩
+
+theorem spec_store_unchanged_ref (w : RWorld α) (o a b : Nat) :
+    (w.step (.ctor a b)).store = w.store ∧ (w.step (.setArr o a b)).store = w.store := ⟨rfl, rfl⟩
+
+/-- the op specifies object `o` anew -/
+def Respec (o : Nat) : WOp α → Prop
+  | .setArr o' _ _ => o' = o
+  | _ => False
+
+/-- the op is the caller writing into one of his arrays -/
+def IsWrite : WOp α → Prop
+  | .write _ _ _ => True
+  | _ => False
+
+theorem vstep_other (w : VWorld α) (o : Nat) (x : List α × List α) (op : WOp α)
+    (hx : w.obj o = some x) (hop : ¬ Respec o op) : (w.step op).obj o = some x := by
+  cases op with
+  | ctor a b => exact nth_append_left _ _ _ _ hx
+  | setArr o' a b =>
+    have : o' ≠ o := fun h => hop h
+    simp only [VWorld.step, VWorld.obj]
+    rw [nth_updAt_ne _ _ _ _ this]; exact hx
+  | write id i v => exact hx
+
+/-- **no dependence on later changes** (value semantics): once object `o` holds a schedule, nothing
+short of specifying `o` again changes it — not the caller overwriting the arrays he passed, not the
+same arrays being used to specify other objects, not new objects. -/
+theorem schedule_fixed_at_specification (w : VWorld α) (o : Nat) (x : List α × List α)
+    (ops : List (WOp α)) (hx : w.obj o = some x) (hops : ∀ op ∈ ops, ¬ Respec o op) :
+    (ops.foldl VWorld.step w).obj o = some x := by
+  induction ops generalizing w with
+  | nil => exact hx
+  | cons op r ih =>
+    exact ih (w.step op) (vstep_other w o x op hx (hops op (by simp)))
+      (fun op' h => hops op' (by simp [h]))
+
+/-- what a specification stores is the contents the arrays have at that moment -/
+theorem setArr_stores_contents (w : VWorld α) (o a b : Nat) (x : List α × List α)
+    (hx : w.obj o = some x) :
+    (w.step (.setArr o a b)).obj o = some (arrOf w.store a, arrOf w.store b) :=
+  nth_updAt_eq _ _ _ _ hx
+
+theorem ctor_stores_contents (w : VWorld α) (a b : Nat) :
+    (w.step (.ctor a b)).obj w.objs.length = some (arrOf w.store a, arrOf w.store b) :=
+  nth_append_new _ _
+
+/-- reference semantics simulates value semantics as long as the caller does not write -/
+def Sim (r : RWorld α) (v : VWorld α) : Prop :=
+  r.store = v.store ∧ v.objs = r.objs.map (fun p => (arrOf r.store p.1, arrOf r.store p.2))
+
+theorem sim_step (r : RWorld α) (v : VWorld α) (op : WOp α) (h : Sim r v) (hw : ¬ IsWrite op) :
+    Sim (r.step op) (v.step op) := by
+  obtain ⟨hs, ho⟩ := h
+  cases op with
+  | ctor a b =>
+    refine ⟨hs, ?_⟩
+    simp only [VWorld.step, RWorld.step, List.map_append, List.map_cons, List.map_nil, ← hs, ho]
+  | setArr o a b =>
+    refine ⟨hs, ?_⟩
+    simp only [VWorld.step, RWorld.step, ← hs, ho]
+    exact (updAt_map (fun p : Nat × Nat => (arrOf r.store p.1, arrOf r.store p.2)) r.objs o (a, b)).symm
+  | write id i v => exact absurd trivial hw
+
+/-- **reference semantics, partial**: without writes by the caller — in particular when the very same
+arrays are reused for a second specification, another object, another model — keeping references
+gives the same schedules as storing the contents. -/
+theorem ref_eq_val_without_writes (r : RWorld α) (v : VWorld α) (ops : List (WOp α)) (h : Sim r v)
+    (hops : ∀ op ∈ ops, ¬ IsWrite op) (o : Nat) :
+    (ops.foldl RWorld.step r).obj o = (ops.foldl VWorld.step v).obj o := by
+  induction ops generalizing r v with
+  | nil =>
+    obtain ⟨hs, ho⟩ := h
+    simp only [List.foldl_nil, RWorld.obj, VWorld.obj, ho, nth_map]
+  | cons op rest ih =>
+    exact ih _ _ (sim_step r v op h (hops op (by simp))) (fun op' h' => hops op' (by simp [h']))
+
+/-- **reference semantics, witness** (what `self.Tparameters = (times, temperatures)` does): the caller
+changes his hours array after the specification and the stored schedule follows — 750 K at
+t = 1800 s becomes 712.5 K.  With value semantics it stays. -/
+theorem ref_alias_witness :
+    let r : RWorld ℚ := ((RWorld.mk [[0, 1], [700, 800]] []).step (.ctor 0 1)).step (.write 0 1 4)
+    let v : VWorld ℚ := ((VWorld.mk [[0, 1], [700, 800]] []).step (.ctor 0 1)).step (.write 0 1 4)
+    r.obj 0 = some ([0, 4], [700, 800]) ∧ v.obj 0 = some ([0, 1], [700, 800]) ∧
+    npInterp (1800 / 3600 : ℚ) [0, 4] [700, 800] = some (1425 / 2) ∧
+    npInterp (1800 / 3600 : ℚ) [0, 1] [700, 800] = some 750 := by
+  refine ⟨rfl, rfl, ?_, ?_⟩
+  · have := interp_between (1800 / 3600 : ℚ) 0 4 700 800 [] [] [] [] rfl rfl (by decide)
+      (by norm_num) (by norm_num)
+    simpa using this.trans (by norm_num)
+  · have := interp_between (1800 / 3600 : ℚ) 0 1 700 800 [] [] [] [] rfl rfl (by decide)
+      (by norm_num) (by norm_num)
+    simpa using this.trans (by norm_num)
+
 /-! ### non-vacuity: the hypotheses are satisfiable -/
 
 example : ([0, 16, 17] : List ℚ).Pairwise (· < ·) := by decide
